@@ -128,6 +128,9 @@ impl MetadataClient for SimMetadata {
     async fn scavenge_leases(&self) -> Result<usize> {
         gated!(self, "scavenge_leases", "", self.inner.scavenge_leases())
     }
+    async fn active_split_new_shards(&self) -> Result<Vec<String>> {
+        read!(self, "active_split_new_shards", "", self.inner.active_split_new_shards())
+    }
     async fn has_active_split(&self) -> Result<bool> {
         read!(self, "has_active_split", "", self.inner.has_active_split())
     }
